@@ -16,10 +16,34 @@ def _conc(e, name):
     return None
 
 
+CONCRETE_ABSTRACT = [False]  # replay mode: abstract operators become fixed concrete functions
+
+
+def _fit_int(c, lo, hi):
+    c = Fraction(c)
+    v = int(c) if c.denominator == 1 else int(abs(c) * 2) + 1
+    if lo is not None and v < lo:
+        v = lo + (abs(v) % 3)
+    if hi is not None and v > hi:
+        v = hi
+    return v
+
+
+def _fit_real(c, lo, hi, lo_strict, nonzero):
+    v = Fraction(c)
+    if lo is not None and (v < lo or (lo_strict and v == lo)):
+        v = lo + abs(v) + Fraction(1, 4)
+    if hi is not None and v > hi:
+        v = Fraction(hi) - (Fraction(1, 3) if (lo is not None and hi - Fraction(1, 3) > lo) else 0)
+    if nonzero and v == 0:
+        v = Fraction(1, 2)
+    return float(v)
+
+
 def integer(e, name, lo=None, hi=None):
     c = _conc(e, name)
     if c is not None:
-        return int(c)
+        return _fit_int(c, lo, hi)
     v = z3.Int(name)
     if lo is not None:
         e.assume(v >= lo)
@@ -31,7 +55,7 @@ def integer(e, name, lo=None, hi=None):
 def real(e, name, lo=None, hi=None, lo_strict=False, nonzero=False):
     c = _conc(e, name)
     if c is not None:
-        return float(c)
+        return _fit_real(c, lo, hi, lo_strict, nonzero)
     v = z3.Real(name)
     if lo is not None:
         e.assume(v > lo if lo_strict else v >= lo)
@@ -47,7 +71,7 @@ def real0d(e, name, nonzero=False):
     subclass would be consumed natively by complex.__mul__)"""
     c = _conc(e, name)
     if c is not None:
-        return float(c)
+        return _fit_real(c, None, None, False, nonzero)
     v = z3.Real(name)
     if nonzero:
         e.assume(v != 0)
@@ -113,6 +137,8 @@ class AbstractOp:
     def __call__(self, u):
         from . import ops
         from .smt import CX
+        if CONCRETE_ABSTRACT[0]:
+            return 0.3 * u * u + 0.1 * u  # replay mode: a fixed concrete operator (same formula natively and in the shim)
         U = values.const_arr(u)
         if U.kind == "complex":
             gre, gim = ops.opaque_apply(self.name + "re", U), ops.opaque_apply(self.name + "im", U)
